@@ -35,7 +35,7 @@ def main():
     outp, tier = sys.argv[1], sys.argv[2]
     out = []
     sent = sentinels()
-    reg0 = None
+    reg0 = regleg = None
     for topo, (nx, ny) in NS.items():
         opts = E.size_options(topo, nx, ny, 1)
         opts.update(psinorm_core=0.9, psinorm_sol=1.1, psinorm_pf=0.95)
@@ -45,6 +45,8 @@ def main():
         eq, _ = E.make_tokamak(E.TOPO_GEOM[topo], opts)
         for name, reg in eq.regions.items():
             reg0 = reg0 or reg
+            if topo == "LSN" and name == "outer_lower_divertor":
+                regleg = reg
             sp = reg.getSpacings()
             vals = {}
             for w in WHATS:
@@ -65,7 +67,9 @@ def main():
     G = 2
     for L, N, nnf, kinds, pl, pu in itertools.product(Ls, Ns, (1, 4), ("wall.X", "X.wall", "X.X", "wall.wall"), pv, pv):
         N_norm = N * nnf
-        for method in ("sqrt", "monotonic", "linear"):
+        for method in ("sqrt", "monotonic", "linear", "perp"):
+            if method == "perp" and (L != Ls[0] or nnf != 1):
+                continue      # (the contour, and with it the length and N_norm, are those of a real leg: one pass over N, kinds and the spacings)
             rec = {"id": len(out) + 1, "kind": "func", "method": method, "L": L, "N": N, "N_norm": N_norm, "kinds": kinds, "pl": pl, "pu": pu, "topo": "LSN", "region": "core",
                    "values": {w: {"lower": 0, "upper": 0} for w in WHATS}, "options": {"xpoint_poloidal_spacing_length": 0},
                    "raised": 0, "s": [0], "endg": {"lo": {"req": 0, "got": 0, "tol": 0}, "hi": {"req": 0, "got": 0, "tol": 0}}, "ext_ok": 1}
@@ -77,10 +81,24 @@ def main():
                     f = reg0.getSqrtPoloidalDistanceFunc(L, N, N_norm, **kw)
                 elif method == "monotonic":
                     f = reg0.getMonotonicPoloidalDistanceFunc(L, N, N_norm, d_lower=pl, d_upper=pu)
+                elif method == "perp":
+                    # getSfuncFixedPerpSpacing: the spacing measured perpendicular to a surface vector; an end that is an X-point asks for
+                    # spacing * sin(angle between separatrix and surface at THAT end), a wall end for the spacing itself.  The two ends
+                    # get different angles (seeded change C10_one_sine_per_region); the contour is a real leg, the vector its target's
+                    rp = copy.copy(regleg)
+                    rp.wallSurfaceAtStart = [1.0, 0.0] if lo_wall else None
+                    rp.wallSurfaceAtEnd = [1.0, 0.0] if hi_wall else None
+                    rp.sin_angle_at_start, rp.sin_angle_at_end = 0.62, 0.87
+                    _, Lp = regleg.interpSSperp([1.0, 0.0], psi=regleg.psi)
+                    _, f = rp.getSfuncFixedPerpSpacing(N + 1, regleg, [1.0, 0.0], True, spacing_lower=pl, spacing_upper=pu)
+                    L_used, N_norm_used = float(Lp), float(rp.user_options.N_norm_prefactor * rp.ny_total)
                 else:
                     if (pl, pu) != (pv[0], pv[0]):
                         continue
                     f = reg0.getLinearPoloidalDistanceFunc(L, N)
+                if method == "perp":
+                    L, N_norm = L_used, N_norm_used
+                    rec["L"], rec["N_norm"] = L, N_norm
                 # the code's own run-time guard, on the indices the function is used for
                 rr = copy.copy(reg0)
                 rr.ny_noguards, rr.extend_lower, rr.extend_upper = N // 2, elo, ehi
@@ -97,6 +115,12 @@ def main():
                     got_lo = float(f(h * N_norm)) / (2 * a_lo * np.sqrt(h) + b_lo * h)
                     got_hi = (L - float(f((iN_end - h) * N_norm))) / (2 * a_hi * np.sqrt(h) + b_hi * h)
                     tol = 3000
+                elif method == "perp":
+                    want_lo = pl * (1.0 if lo_wall else 0.62)
+                    want_hi = pu * (1.0 if hi_wall else 0.87)
+                    got_lo = (4.0 * float(f(hm * N_norm)) - float(f(2 * hm * N_norm))) / (2 * hm) / want_lo
+                    got_hi = (4.0 * (L - float(f((iN_end - hm) * N_norm))) - (L - float(f((iN_end - 2 * hm) * N_norm)))) / (2 * hm) / want_hi
+                    tol = 1000
                 elif method == "monotonic":
                     # second-order one-sided differences (the cubic / logarithmic forms can have a large second derivative)
                     got_lo = (4.0 * float(f(hm * N_norm)) - float(f(2 * hm * N_norm))) / (2 * hm) / pl
